@@ -244,7 +244,8 @@ class AMF:
                 acc=bytes([0x2e,psi,sm[2],0xc2,0x11])+len(qos).to_bytes(2,'big')+qos+bytes([6,1,0,100,1,0,100])
                 if s.R.random()<0.5: acc+=bytes([0x59,0x32])
                 s.n_sessions=getattr(s,'n_sessions',0)+1
-                acc+=bytes([0x29,5,1])+ue.ip+[b'', bytes([0x22,4,1,1,2,3,0x25,9,8])+b'internet', bytes([0x22,4,1,1,2,3]), bytes([0x25,9,8])+b'internet'][(s.n_sessions-1)%4]   # everything after the Session-AMBR is optional: the PDU address may be the last IE
+                fd=s.cfg.get('flow_desc_len',0); fdie=(bytes([0x79])+fd.to_bytes(2,'big')+bytes(s.R.randrange(256) for _ in range(fd))) if fd else b''
+                acc+=bytes([0x29,5,1])+ue.ip+[fdie, bytes([0x22,4,1,1,2,3])+fdie+bytes([0x25,9,8])+b'internet', bytes([0x22,4,1,1,2,3])+fdie, fdie+bytes([0x25,9,8])+b'internet'][(s.n_sessions-1)%4]   # everything after the Session-AMBR is optional: the PDU address may be the last IE
                 dl=bytes([0x7e,0,0x68,1])+len(acc).to_bytes(2,'big')+acc+bytes([0x12,psi])
                 tt='ngapType.PDUSessionResourceSetupRequestTransferIEs'
                 qf={'QosFlowIdentifier':1,'QosFlowLevelQosParameters':{'QosCharacteristics':{'NonDynamic5QI':{'FiveQI':9}},'AllocationAndRetentionPriority':{'PriorityLevelARP':8,'PreEmptionCapability':0,'PreEmptionVulnerability':0}}}
